@@ -20,13 +20,59 @@ FILTERS_ARG = ["default('x')", "join(', ')", "replace('a', 'b')", "truncate(5)",
 # filters whose result for a constant input is a generator / iterator / bound method (measured: every built-in filter that is
 # not context-dependent, applied to the literals below, result checked with compiler.has_safe_repr)
 LAZY_FILTERS = {"items", "batch", "slice", "attr", "unique", "reverse"}
-# constant expressions that the optimizer folds into a string containing an object address
+# constant expressions that the optimizer used to fold into a string containing an object address (fixed: df6ea54)
 ADDRESS_TEMPLATES = ["{{ [1, 2]|batch(2)|string }}", "{{ {'k': 1}|items|string }}", "{{ [1, 2, 3]|slice(2)|upper }}",
                      "{{ [1]|batch(1) ~ 'x' }}", "{{ 'a'.upper|string }}", "{{ 'a'|attr('upper')|string }}",
                      "{% set v = (1, 2)|batch(1)|string %}{{ v }}", "{{ [1, 1]|unique|string }}", "{{ [1, 2]|reverse|title }}"]
 TESTS = ["defined", "undefined", "none", "odd", "even", "string", "number", "mapping", "iterable", "sequence", "callable",
          "lower", "upper", "true", "false", "boolean", "integer", "float", "filter", "test", "sameas(1)", "divisibleby(2)",
          "eq(1)", "ne(2)", "lt(3)", "gt(0)", "in([1])", "escaped"]
+
+
+# ---------------------------------------------------------------------------------------------------------------------
+# every registered filter / test applied to CONSTANT operands: the optimizer folds such calls at compile time, so whatever
+# the filter computes (including the order in which it iterates a set or dict it builds) is written into the generated source
+# ---------------------------------------------------------------------------------------------------------------------
+CONST_OPERANDS = [
+    "'see http://example.com/ and www.x.org now <b>&</b> mailto:a@b.cd tel:123'", "'hello World foo Bar'", "'%s and %s'",
+    "42", "-3.75", "[3, 1, 2, 1]", "['b', 'A', 'c', 'a']",
+    "[{'x': 2, 'y': 'b'}, {'x': 1, 'y': 'a'}, {'x': 2, 'y': 'c'}]",
+    "{'b': 1, 'a': [1, 2], 'c': 'x y', 'class': 'k1 k2', 'id': none}", "(1, 'a')", "none", "true",
+]
+FILTER_ARGS = {
+    "attr": ["'x'", "'upper'"], "batch": ["2", "2, 'f'"], "center": ["20"], "default": ["'x'", "'x', true"], "d": ["'x'"],
+    "dictsort": ["", "true, 'value'", "reverse=true"], "format": ["1, 2"], "groupby": ["'x'", "'y', default='z'", "0"],
+    "indent": ["2", "2, true, true"], "join": ["','", "'-', 'x'"], "map": ["'upper'", "attribute='x'", "'string'"],
+    "max": ["", "attribute='x'"], "min": ["", "attribute='x'"], "reject": ["'odd'", "'string'", ""],
+    "select": ["'odd'", "'string'", ""], "rejectattr": ["'x'", "'x', 'odd'"], "selectattr": ["'x'", "'y', 'equalto', 'a'"],
+    "replace": ["'o', '0'", "'o', '0', 1"], "round": ["1", "1, 'floor'"], "slice": ["2", "2, 'f'"],
+    "sort": ["", "true", "attribute='x'", "case_sensitive=true"], "sum": ["", "attribute='x'", "start=10"],
+    "tojson": ["", "2"], "truncate": ["5", "9, true, '..', 0"], "unique": ["", "true", "attribute='x'"],
+    "urlize": ["", "nofollow=true", "rel='external ugc me'", "40, true, target='_blank', rel='a b c d'",
+               "extra_schemes=['tel:', 'x:'], nofollow=true, rel='me'"],
+    "wordwrap": ["7", "7, false"], "xmlattr": ["", "false"], "trim": ["", "'x'"], "int": ["", "5", "0, 16"],
+    "float": ["", "1.5"], "filesizeformat": ["", "true"], "first": [""], "last": [""],
+}
+TEST_ARGS = {"divisibleby": ["2"], "sameas": ["none"], "in": ["[1, 'a', 42]"], "eq": ["42"], "equalto": ["42"], "==": ["42"],
+             "ne": ["1"], "!=": ["1"], "lt": ["5"], "<": ["5"], "lessthan": ["5"], "le": ["5"], "<=": ["5"], "gt": ["5"],
+             ">": ["5"], "greaterthan": ["5"], "ge": ["5"], ">=": ["5"]}
+
+
+def const_fold_templates(filter_names, test_names):
+    """[(kind, name, template)]: one small template per (filter, argument combination) / per test with every constant operand"""
+    out = []
+    for f in sorted(filter_names):
+        for args in FILTER_ARGS.get(f, [""]):
+            call = "%s(%s)" % (f, args) if args else f
+            body = "".join("{{ %s|%s }}\n{{ (%s|%s)|list|string }}\n" % (op, call, op, call) for op in CONST_OPERANDS)
+            out.append(("filter", f, body))
+    for t in sorted(test_names):
+        if not t.isidentifier():
+            continue   # operator spellings (==, <, ...) are reachable as `is eq` etc.
+        for args in TEST_ARGS.get(t, [""]):
+            call = "%s(%s)" % (t, args) if args else t
+            out.append(("test", t, "".join("{{ %s is %s }}\n" % (op, call) for op in CONST_OPERANDS)))
+    return out
 
 
 class TGen:
@@ -75,9 +121,7 @@ class TGen:
         for _ in range(r.randrange(0, 4)):
             f = r.choice(FILTERS) if r.random() < 0.75 else r.choice(FILTERS_ARG)
             if lit and f.split("(")[0] in LAZY_FILTERS:
-                # a constant expression whose intermediate value is a generator is folded to a string holding the generator's
-                # memory address (finding C30:folded-object-address); that family is probed separately (ADDRESS_TEMPLATES)
-                continue
+                self.h("lazy-filter-on-literal")
             e += "|" + f
             self.h("filter")
         c = r.randrange(12)
@@ -92,7 +136,7 @@ class TGen:
             elif c == 3:
                 e = "[%s]" % ", ".join(self.expr(d - 1) for _ in range(r.randrange(1, 4)))
             elif c == 4:
-                e = "(%s)|%s" % (e, r.choice([f for f in FILTERS if not (lit and f in LAZY_FILTERS)]))
+                e = "(%s)|%s" % (e, r.choice(FILTERS))
         return e
 
     def cond(self, d=1):
